@@ -157,8 +157,10 @@ func c12(id string, op Op, ps []Pos) {
 	nd.Assert(id, nd.LeqDec(sum(), pool(), math.LegacyNewDec(int64(len(ps)+2))))
 }
 
-func H_C12_step_claim_Q()      { c12("C12.step.claim", OpClaim, []Pos{{0, 0, 0}, {1, 0, 0}, {1, 1, 0}}) }
-func H_C12_step_delegate_Q()   { c12("C12.step.delegate", OpDelegate, []Pos{{0, 0, 0}, {1, 0, 0}, {1, 1, 0}}) }
+func H_C12_step_claim_Q() { c12("C12.step.claim", OpClaim, []Pos{{0, 0, 0}, {1, 0, 0}, {1, 1, 0}}) }
+func H_C12_step_delegate_Q() {
+	c12("C12.step.delegate", OpDelegate, []Pos{{0, 0, 0}, {1, 0, 0}, {1, 1, 0}})
+}
 func H_C12_step_undelegate_Q() { c12("C12.step.undelegate", OpUndelegate, []Pos{{0, 0, 0}, {1, 0, 0}}) }
 func H_C12_step_redelegate_Q() {
 	if nd.Thorough() {
@@ -168,6 +170,14 @@ func H_C12_step_redelegate_Q() {
 	// quick tier: the actor has no position on the destination validator yet
 	c12("C12.step.redelegate", OpRedelegate, []Pos{{0, 0, 0}, {1, 0, 0}})
 }
+
+// H_C12_step_redelegate_existing_Q: the actor already holds a position on the destination validator
+// (its accrued rewards must be settled before the stake arrives) - no co-delegators, so that the
+// quick tier decides it.
+func H_C12_step_redelegate_existing_Q() {
+	c12("C12.step.redelegate_existing", OpRedelegate, []Pos{{0, 0, 0}, {0, 1, 0}})
+}
+
 func H_C12_step_slash_Q() {
 	nd.Tag("slash-with-unclaimed-rewards")
 	c12("C12.step.slash", OpSlash, []Pos{{0, 0, 0}, {1, 0, 0}, {1, 1, 0}})
@@ -258,8 +268,18 @@ func H_C05_exit_Q() {
 	balance := types.GetDelegationTokens(del, av0, asset).Amount
 	nd.Assume(balance.GT(math.ZeroInt()))
 	exact := types.ConvertNewShareToDecToken(av0.TotalTokensWithAsset(asset), av0.TotalDelegationSharesWithDenom(Denoms[0]), del.Shares)
+	// regions of the known findings, computed with the library calls the repository uses (not by
+	// running the code under test): the reported balance is the value rounded UP, and
+	//  - it is worth at least one whole share more than the position holds (the request is refused), or
+	//  - it is worth more validator shares than the validator holds (ReduceShares clamps or panics)
+	req := types.GetDelegationSharesFromTokens(av0, asset, balance)
 	if math.LegacyNewDecFromInt(balance).GT(exact) {
-		nd.Tag("balance-rounded-up")
+		if req.TruncateDec().GT(del.Shares) {
+			nd.Tag("balance-rounded-up")
+		}
+		if types.GetValidatorShares(asset, balance).GT(av0.ValidatorSharesWithDenom(Denoms[0])) {
+			nd.Tag("valshare-clamp")
+		}
 	}
 	if av0.TotalDelegationSharesWithDenom(Denoms[0]).TruncateInt().IsZero() {
 		nd.Tag("tds-below-one") // GetDelegationSharesFromTokens prices shares 1:1 when the validator's delegator shares truncate to zero
